@@ -151,6 +151,7 @@ class Prop:
     lean_modules: Sequence[str] = ()         # e.g. ["QmiModel.Props.C09"]
     props_files: Sequence[str] = ()          # files whose theorems are the obligations (default: Props/<id>.lean)
     driver: Optional[str] = None             # lean_exe target name
+    extra_drivers: Sequence[str] = ()        # further lean_exe targets (composite checks)
     extra_trusted: Sequence[str] = ()
     modelled_not_verified: Sequence[str] = ()
     level: str = "proof"
@@ -169,6 +170,61 @@ class Prop:
     def replay(self, ctx: Ctx, replay: dict) -> Optional[Failure]:
         """Re-run a replay file; return the Failure if it still fails."""
         raise NotImplementedError
+
+
+class CompositeProp(Prop):
+    """A property decided by several independent parts (each a Prop-like object with its own model/driver)."""
+    parts: Sequence[Prop] = ()
+
+    def __init__(self):
+        mods, files, drvs, mnv, et = [], [], [], [], []
+        for p in self.parts:
+            mods += [m for m in p.lean_modules if m not in mods]
+            files += [f for f in (p.props_files or []) if f not in files]
+            if p.driver and p.driver not in drvs:
+                drvs.append(p.driver)
+            drvs += [d for d in p.extra_drivers if d not in drvs]
+            mnv += [x for x in p.modelled_not_verified if x not in mnv]
+            et += [x for x in p.extra_trusted if x not in et]
+        self.lean_modules, self.props_files = mods, files
+        self.driver, self.extra_drivers = None, drvs
+        self.modelled_not_verified, self.extra_trusted = mnv, et
+
+    def translate(self, ctx):
+        out = []
+        for p in self.parts:
+            out += p.translate(ctx) or []
+        return out
+
+    def _tag(self, i, r: Result) -> Result:
+        for f in r.failures:
+            f.replay = {"part": i, **f.replay}
+        for b in r.broken:
+            if b.case is not None:
+                b.case = {"part": i, **b.case}
+        return r
+
+    def correspondence(self, ctx):
+        res = Result()
+        for i, p in enumerate(self.parts):
+            try:
+                res.merge(self._tag(i, p.correspondence(ctx)))
+            except Exception as e:
+                res.broken.append(Broken("correspondence", f"{self.id}.part{i}.harness",
+                                         f"{type(e).__name__}: {e}\n{traceback.format_exc()[-2500:]}"))
+        return res
+
+    def search(self, ctx, broken):
+        res = Result()
+        for i, p in enumerate(self.parts):
+            mine = [Broken(b.stage, b.name, b.detail, {k: v for k, v in b.case.items() if k != "part"} if b.case else None)
+                    for b in broken if not b.case or b.case.get("part", i) == i]
+            res.merge(self._tag(i, p.search(ctx, mine)))
+        return res
+
+    def replay(self, ctx, rp):
+        i = rp.get("part", 0)
+        return self.parts[i].replay(ctx, {k: v for k, v in rp.items() if k != "part"})
 
 
 # ---------------------------------------------------------------------------
@@ -421,7 +477,8 @@ def run_check(prop: Prop, tier: str, seed: int) -> int:
     for f in props_files:
         if f.exists():
             thms += theorems_of(f)
-    targets = list(prop.lean_modules) + ([prop.driver] if prop.driver else [])
+    drivers = ([prop.driver] if prop.driver else []) + list(prop.extra_drivers)
+    targets = list(prop.lean_modules) + drivers
     build_ok, build_out = lake_build(targets)
     driver_ok = True
     if not build_ok:
@@ -429,14 +486,14 @@ def run_check(prop: Prop, tier: str, seed: int) -> int:
         failed_mods = re.findall(r"^- (\S+)", build_out, re.M)
         broken.append(Broken("lean-build", ",".join(failed_mods) or "lake build", "\n".join(errs) or build_out[-1500:]))
         # the driver may still be buildable even if a Props module is not
-        if prop.driver:
-            driver_ok, _ = lake_build([prop.driver])
+        if drivers:
+            driver_ok, _ = lake_build(drivers)
     ctx.log(f"lake build {'ok' if build_ok else 'FAILED'} ({len(thms)} theorems stated)")
 
     # 3. audit
     discharged = 0
     axioms_used: set[str] = set()
-    srcs = lean_sources_for(list(prop.lean_modules) + ([f"Drv.{prop.id}"] if prop.driver else []))
+    srcs = lean_sources_for(list(prop.lean_modules) + [f"Drv.{d[4:].upper()}" if d.startswith("drv_") else d for d in drivers])
     hits = forbidden_tokens(srcs)
     if hits:
         broken.append(Broken("forbidden-token", hits[0], "\n".join(hits)))
